@@ -3,7 +3,8 @@ Every program is the text of one case module with `pub fn run()`; base names are
 Ty / f0.. / V0.. / T, U / N / 'l."""
 from . import cmpmodel as M
 from . import cmpgen
-from . import p_c07, p_c08, p_c10, p_c11, p_c12, p_c18
+from . import p_c07, p_c08, p_c09, p_c10, p_c11, p_c12, p_c18
+import re
 
 
 def base_programs(rng, n, sources=None):
@@ -118,6 +119,16 @@ pub fn run() {{
         if p_c11.usable(s) and s["kind"] == "enum" and len(s["variants"]) >= 2 and sum(len(v["fields"]) for v in s["variants"]) >= 3 and not s["type_level"]:
             out.append({"src": "default", "traits": ["Default"], "code": p_c11.render(s)[0]})
             break
+    # operators derived from user impls (the operand types play the `type` role)
+    for spec in ({"op": "Add", "base": "assign", "lref": False, "rref": False, "other": True, "req": ["Op"], "shape": "plain", "omit_rhs": False},
+                 {"op": "Sub", "base": "assign", "lref": False, "rref": True, "other": False, "req": ["Op"], "shape": "generic", "omit_rhs": False},
+                 {"op": "Shl", "base": "binary", "lref": False, "rref": False, "other": True, "req": ["Op", "OpAssign"], "shape": "generic", "omit_rhs": False},
+                 {"op": "Mul", "base": "binary", "lref": True, "rref": True, "other": False, "req": ["Op", "OpAssign"], "shape": "plain", "omit_rhs": False},
+                 {"op": "BitXor", "base": "binary", "lref": True, "rref": False, "other": True, "req": ["OpAssign"], "shape": "plain", "omit_rhs": False}):
+        code = p_c09.render(spec)
+        code = re.sub(r"\bA\b", "Ty", code)
+        code = re.sub(r"\bO\b", "Ty2", code)
+        out.append({"src": "implops", "traits": [spec["op"]], "code": code})
     for code, meta in p_c18.accept_cases():
         if meta["field"] == "&'a [T]" and meta["traits"] == "Deref, DerefMut":
             out.append({"src": "deref", "traits": ["Deref", "DerefMut"], "code": code.replace("'a", "'l").replace("inner", "f0")})
